@@ -78,6 +78,114 @@ Proof.
   unfold shift_sres. cbn [fst snd]. split; [reflexivity|]. rewrite !shift_errs_nil. tauto.
 Qed.
 
+(* ---- a list-typed composite field, whatever the universe holds in it ---- *)
+Definition list_src (fv : fval) : option (list fval) :=
+  match fv with
+  | FLst items => Some items
+  | FSc (JArr js) => Some (map FSc js)
+  | _ => None
+  end.
+Definition list_null_errs (fv : fval) (p' : list pel) : list xerr :=
+  match fv with
+  | FNullRef => []
+  | FSc JNull => []
+  | _ => [XErr p']
+  end.
+Lemma list_null_errs_iff fv q' p' : list_null_errs fv q' = [] <-> list_null_errs fv p' = [].
+Proof. destruct fv as [j| | | | | | |]; try destruct j; cbn; split; try tauto; discriminate. Qed.
+
+Section LVal.
+  Variable sc : schema.
+  Variable U : universe.
+  Variable frags : list fragment.
+  Variable vars : list (bytes * json).
+  Variables (ovP : oval) (f : name) (nni : bool) (n : name) (cargs : list (bytes * json)).
+  Hypothesis Hcomp : is_leaf_kind sc n = Some false.
+
+  Notation ity := (if nni then TNonNull (TNamed n) else TNamed n).
+
+  Lemma item_complete_g c X it q :
+    complete sc U frags vars Mono (if nni then S (S c) else S c) ity ovP f cargs it X q =
+    item_c U sc frags vars nni n cargs c X it q.
+  Proof.
+    unfold item_c, itemwrap. destruct nni.
+    - rewrite complete_S, complete_S, Hcomp. reflexivity.
+    - rewrite complete_S, Hcomp. reflexivity.
+  Qed.
+
+  Lemma complete_obj_FSc c c' j X q :
+    complete_obj sc U frags vars Mono c n cargs (FSc j) X q = complete_obj sc U frags vars Mono c' n cargs (FSc j) X q.
+  Proof. unfold complete_obj. cbn [obj_target]. destruct j; reflexivity. Qed.
+
+  Lemma list_value c X fv p' :
+    (1 <= c)%nat ->
+    complete sc U frags vars Mono (S (if nni then S (S c) else S c)) (TList ity) ovP f cargs fv X p' =
+    match list_src fv with
+    | Some items => list_finish (lst_loop (item_c U sc frags vars nni n cargs c X) p' 0 items)
+    | None => cnull (list_null_errs fv p')
+    end.
+  Proof.
+    intros Hc1. rewrite complete_S.
+    destruct fv as [j|t0 k0| |l| | |t0 a0|fs]; cbn [list_src list_null_errs]; try reflexivity.
+    - destruct j; try reflexivity.
+      destruct c as [|c']; [clear -Hc1; lia|].
+      assert (Hg : (if nni then S (S (S c')) else S (S c')) = S (if nni then S (S c') else S c')) by (destruct nni; reflexivity).
+      rewrite Hg, complete_S. f_equal. apply lst_loop_ext_in. intros it q Hin.
+      apply in_map_iff in Hin. destruct Hin as (j & <- & _).
+      rewrite item_complete_g. unfold item_c. rewrite (complete_obj_FSc c' (S c')). reflexivity.
+    - f_equal. apply lst_loop_ext_in. intros it q _. apply item_complete_g.
+  Qed.
+End LVal.
+
+Section LField.
+  Variable sc : schema.
+  Variable U : universe.
+  Variable frags : list fragment.
+  Variable vars : list (bytes * json).
+  Variables (P : name) (ovP : oval) (af : option name) (f : name) (args : list argument).
+  Variable path : list pel.
+  Variables (nnl nni : bool) (n : name) (td : type_def) (fd : field_def).
+
+  Hypothesis Hname : bytes_eqb f s_typename = false.
+  Hypothesis Htd : find_type P (s_types sc) = Some td.
+  Hypothesis Hfd : find_field f (td_fields td) = Some fd.
+  Hypothesis Hty : fd_type fd = list_ty nnl nni n.
+  Hypothesis Hcomp : is_leaf_kind sc n = Some false.
+
+  Lemma list_field_exec c X :
+    (1 <= c)%nat ->
+    exec_sels sc U frags vars Mono (list_hop_fuel nnl nni c) P ovP [SField af f args [] X] path =
+    field_result nnl (hop_key af f) (hop_path af f path)
+      (match list_src (hop_fv ovP f) with
+       | Some items => list_finish (lst_loop (item_c U sc frags vars nni n (hop_cargs sc vars args fd) c X) (hop_path af f path) 0 items)
+       | None => cnull (list_null_errs (hop_fv ovP f) (hop_path af f path))
+       end).
+  Proof.
+    intros Hc1.
+    unfold list_hop_fuel. cbv zeta. rewrite exec_sels_S, flatten_S_cons, flatten_S_nil. cbn [flat_here included].
+    cbn [flat_seq app length].
+    change (group 2 [SField af f args [] X]) with (groups [SField af f args [] X]). rewrite groups_cons.
+    cbn [filter flat_map sel_subs sel_key]. rewrite groups_nil, !app_nil_r. cbn [sels_go].
+    fold (hop_key af f). fold (hop_path af f path).
+    set (g := if nni then S (S c) else S c).
+    set (V := match list_src (hop_fv ovP f) with
+              | Some items => list_finish (lst_loop (item_c U sc frags vars nni n (hop_cargs sc vars args fd) c X) (hop_path af f path) 0 items)
+              | None => cnull (list_null_errs (hop_fv ovP f) (hop_path af f path))
+              end).
+    assert (Hl : complete sc U frags vars Mono (S g) (TList (if nni then TNonNull (TNamed n) else TNamed n))
+                          ovP f (hop_cargs sc vars args fd) (hop_fv ovP f) X (hop_path af f path) = V).
+    { unfold g, V. apply list_value; assumption. }
+    assert (Hf : exec_field sc U frags vars Mono (S (if nnl then S (S g) else S g)) P ovP (hop_key af f)
+                            (SField af f args [] X) X (hop_path af f path) =
+                 (if nnl then nonnull_wrap (hop_path af f path) else fun r => r) V).
+    { rewrite exec_field_S, Hname. unfold is_entities. rewrite Htd, Hfd, Hty.
+      fold (hop_cargs sc vars args fd). change (field_fval ovP f) with (hop_fv ovP f). unfold list_ty. cbv zeta.
+      destruct nnl; [rewrite complete_S|]; rewrite Hl; reflexivity. }
+    rewrite Hf. unfold field_result. destruct nnl; cbn beta;
+      match goal with |- context [c_viol ?r] => destruct (c_viol r) end; rewrite ?app_nil_r; reflexivity.
+  Qed.
+End LField.
+
 Section FLStep.
   Variable U : universe.
   Variables (sc : schema) (subs : list schema) (vdsM : list vardef) (supM : list (bytes * json)).
@@ -85,8 +193,6 @@ Section FLStep.
   Variable tn : bool.
   Variable decls : list (name * list name).
   Variable rdecls : list rdecl.
-
-  Hypothesis Hc : univ3_contract_b sc subs decls rdecls U = true.
 
   Notation vars := (pvars vdsM supM).
   Notation fill' := (fill U sc subs [] vdsM supM f2 tn).
@@ -265,6 +371,15 @@ Section FLStep.
           { unfold field_result, nonnull_wrap. destruct nnl; reflexivity. }
           rewrite HR. unfold vres_sres. cbn [fst snd]. split; [reflexivity|exact K3].
     Qed.
+    Lemma null_final nnl nni key q' p' errs1 errs2 :
+      (errs1 = [] <-> errs2 = []) ->
+      sres_weq (tr3' (S k) key (ShList nnl nni) T' sub (field_result nnl key q' (cnull errs1)))
+               (field_result nnl key p' (cnull errs2)).
+    Proof.
+      intros He. unfold field_result, nonnull_wrap, cnull. destruct nnl; cbn [c_json c_errs c_viol tr3 fst snd].
+      - split; [reflexivity|]. cbn [snd]. destruct errs1, errs2; split; discriminate.
+      - rewrite lift_S. cbn [vres_sres fst snd]. rewrite app_nil_r. split; [reflexivity|]. cbn [snd]. exact He.
+    Qed.
   End Inner.
 
   Lemma pt_static_obj k T pt :
@@ -288,21 +403,6 @@ Section FLStep.
     intros H.
     apply Nat.max_lub_iff in H. destruct H as [H1 H]. apply Nat.max_lub_iff in H. destruct H as [H2 H3].
     repeat split; [clear -H1; lia|clear -H2; lia|exact H3].
-  Qed.
-
-  Lemma ent_list_value e td fd nnl nni T' f :
-    In e U -> find_type (en_type e) (s_types sc) = Some td -> find_field f (td_fields td) = Some fd ->
-    fd_type fd = list_ty nnl nni T' -> exists items, hop_fv {| ov_ent := e; ov_repr := None |} f = FLst items.
-  Proof.
-    intros HeU Htd Hfd Hty.
-    pose proof Hc as H. unfold univ3_contract_b in H. apply andb_true_iff in H. destruct H as [_ H].
-    unfold lists_ok_b in H. rewrite forallb_forall in H. specialize (H e HeU). rewrite Htd in H.
-    rewrite forallb_forall in H.
-    destruct (find_field_In _ _ _ Hfd) as [Hin Hn]. specialize (H fd Hin). rewrite Hty, Hn in H.
-    assert (Hl : is_list_ty (list_ty nnl nni T') = true) by (unfold list_ty; destruct nnl, nni; reflexivity).
-    rewrite Hl in H. cbn [negb orb] in H. unfold hop_fv.
-    destruct (field_fval {| ov_ent := e; ov_repr := None |} f) as [j|t0 k0| |l| | |t0 a0|fs]; try discriminate.
-    exists l. reflexivity.
   Qed.
 
   Lemma FL_step k :
@@ -336,16 +436,16 @@ Section FLStep.
       rewrite (hop_exec sc U [] vars T ov a n args [] p nn T' td fd Hname Etd Efd Hfty Elk f2).
       cbn [included].
       apply obj_final. apply (item_step k T' sub HPS Hsub HdT HnE Hb3).
-    - destruct (ent_list_value e td fd nnl nni T' n HeU) as (items & Hfv); [rewrite HeT; exact Etd|exact Efd|exact Hfty|].
-      fold ov in Hfv.
-      assert (Hle : (f2 <= list_hop_fuel nnl nni f2)%nat) by (unfold list_hop_fuel; clear; destruct nnl, nni; lia).
+    - assert (Hle : (f2 <= list_hop_fuel nnl nni f2)%nat) by (unfold list_hop_fuel; clear; destruct nnl, nni; lia).
+      assert (H1f : (1 <= f2)%nat) by (clear -Hb1; unfold fuel_bound in Hb1; lia).
       rewrite <- (exec_sels_fuel_mono sc U [] vars Mono f2 (list_hop_fuel nnl nni f2) T ov _ q Hle Hn1).
       rewrite <- (exec_sels_fuel_mono sc U [] vars Mono f2 (list_hop_fuel nnl nni f2) T ov _ p Hle Hn2).
-      rewrite (list_hop_exec sc U [] vars T ov a n args [] q nnl nni T' td fd items Hname Etd Efd Hfty Elk Hfv f2).
-      rewrite (list_hop_exec sc U [] vars T ov a n args [] p nnl nni T' td fd items Hname Etd Efd Hfty Elk Hfv f2).
-      cbn [included].
-      apply list_final. apply loop_step. intros it i. unfold item_c.
-      apply (item_step k T' sub HPS Hsub HdT HnE Hb3).
+      rewrite (list_field_exec sc U [] vars T ov a n args q nnl nni T' td fd Hname Etd Efd Hfty Elk f2 _ H1f).
+      rewrite (list_field_exec sc U [] vars T ov a n args p nnl nni T' td fd Hname Etd Efd Hfty Elk f2 _ H1f).
+      destruct (list_src (hop_fv ov n)) as [items|].
+      + apply list_final. apply loop_step. intros it i. unfold item_c.
+        apply (item_step k T' sub HPS Hsub HdT HnE Hb3).
+      + apply null_final. apply list_null_errs_iff.
   Qed.
 End FLStep.
 
